@@ -34,11 +34,34 @@ def holds(value, d, D):
 
 
 # ---- operator rules ------------------------------------------------------
+def negative_leaves(t, acc=None):
+    "leaves that occur under Sentence.negative() (-x): the rule inspects whether they are negations"
+    acc = set() if acc is None else acc
+    if t is None:
+        return acc
+    if t[0] == 'negative':
+        acc.add(t[1][1])
+    elif t[0] == 'op':
+        for x in t[2]:
+            negative_leaves(x, acc)
+    elif t[0] in ('q',):
+        negative_leaves(t[3], acc)
+    elif t[0] == 'subst':
+        negative_leaves(t[1], acc)
+    return acc
+
+
 def ev_op(t, val, sem: Semantics):
     if t[0] == 'leaf':
         if t[1] not in val:
             raise Free(f'free leaf {t[1]}')
         return val[t[1]]
+    if t[0] == 'negative':
+        # val['-X'] is given when the operand X is itself a negation ~U: then -X is U
+        k = '-' + t[1][1]
+        if k in val:
+            return val[k]
+        return sem.tables['Negation'][(ev_op(t[1], val, sem),)]
     if t[0] == 'op':
         if t[1] not in sem.tables:
             raise Free(f'modal operator {t[1]} inside an operator-rule term')
@@ -54,13 +77,32 @@ def operator_rule(lg: Logic, sem: Semantics, sch: Schema):
     d = sch.attrs.designation
     fails = []
     n = 0
-    for vs in itertools.product(sem.V, repeat=len(leaves)):
-        val = dict(zip(leaves, vs))
-        n += 1
-        lhs = holds(ev_op(ns, val, sem), d, sem.D)
-        rhs = any(all(it.kind != 'sent' or holds(ev_op(it.s, val, sem), it.d, sem.D) for it in br) for br in sch.branches)
-        if lhs != rhs:
-            fails.append(('unsound' if lhs else 'incomplete', ''.join(vs)))
+    inspected = set()
+    for br in sch.branches:
+        for it in br:
+            if it.kind == 'sent':
+                negative_leaves(it.s, inspected)
+    # each inspected operand is either not a negation (plain) or a negation ~U of something with value u
+    modes = [dict(zip(sorted(inspected), m_)) for m_ in itertools.product(('plain', 'isneg'), repeat=len(inspected))]
+    for mode in modes:
+        spaces = []
+        for lf in leaves:
+            if mode.get(lf) == 'isneg':
+                spaces.append([(sem.tables['Negation'][(u,)], u) for u in sem.V])     # (value of the operand, value of its negatum)
+            else:
+                spaces.append([(v, None) for v in sem.V])
+        for combo in itertools.product(*spaces):
+            val = {}
+            for lf, (v, u) in zip(leaves, combo):
+                val[lf] = v
+                if u is not None:
+                    val['-' + lf] = u
+            n += 1
+            lhs = holds(ev_op(ns, val, sem), d, sem.D)
+            rhs = any(all(it.kind != 'sent' or holds(ev_op(it.s, val, sem), it.d, sem.D) for it in br) for br in sch.branches)
+            if lhs != rhs:
+                tag = ''.join(v for v, u in combo) + ''.join(f'[{lf}=~{u}]' for lf, (v, u) in zip(leaves, combo) if u is not None)
+                fails.append(('unsound' if lhs else 'incomplete', tag))
     return n, fails
 
 
